@@ -1,13 +1,86 @@
 /-
-Oracle ops for the `depth` family.  Owned by the slice that models it; see AGENT_GUIDE.md.
+Oracle ops for the `depth` family (C20): the limits the proven models predict, for cross-checking
+against the running code.
+
+  depth const                      → max=<maxNestingDepth> cycles=<startDetectingCyclesAfter>   (regenerated constants)
+  depth sm <n> <A|O|X>             → pushed=<k> depth=<Depth()> next=<class>   n pushes from reset (arrays, objects,
+                                     alternating), each after a valid position, then one more; class as VerifErrClass
+  depth nest <max> <start> <hex>   → ok | fail <i> | syntax | rest | fuel    value path on a skeleton (ASCII `[ ] { } s`),
+                                     entered at Tokens.Depth() = start; i = index of the refused bracket
+  depth cyc <shape> <fuel>         → ok | cycle | maxDepth | dangling | outOfFuel   traversal model on a named graph
 -/
 import JsonV.Oracle.Util
+import JsonV.Model.Depth
+import JsonV.Model.Cycle
+import JsonV.Gen.Constants
 
 namespace JsonV.Oracle.Depth
-open JsonV JsonV.Oracle
+open JsonV JsonV.Oracle JsonV.Model JsonV.Model.Depth
+
+def errClass : SMErr → Nat
+  | .nonStringName => 1
+  | .invalidNamespace => 2
+  | .maxDepth => 3
+  | .mismatchDelim => 4
+  | .missingValue => 5
+
+def kindAt (k : String) (i : Nat) : Bool := k == "O" || (k == "X" && i % 2 == 1)
+
+/-- `n` pushes, stopping at the first refusal; returns (successful pushes, machine). -/
+def pushN (max : Nat) (k : String) : Nat → Nat → Machine → Nat × Machine
+  | 0, i, m => (i, m)
+  | n + 1, i, m =>
+    match pushKind max (kindAt k i) m with
+    | .ok m' => pushN max k n (i + 1) m'
+    | .error _ => (i, m)
+
+def symOfByte (b : UInt8) : Option Sym :=
+  if b = 0x5b then some .oa else if b = 0x5d then some .ca
+  else if b = 0x7b then some .oo else if b = 0x7d then some .co
+  else if b = 0x73 then some .sc else none
+
+def symsOf (b : Bytes) : Option (List Sym) := b.mapM symOfByte
+
+def showRes : Cycle.Res → String
+  | .ok => "ok" | .cycle => "cycle" | .maxDepth => "maxDepth" | .dangling => "dangling" | .outOfFuel => "outOfFuel"
 
 def handle (op : String) (args : List String) : String :=
   match op, args with
-  | _, _ => "ERR unimplemented"
+  | "const", [] => s!"max={Gen.jsontext.c_maxNestingDepth} cycles={Gen.json.c_startDetectingCyclesAfter}"
+  | "sm", [n, k] =>
+    match n.toNat? with
+    | some n =>
+      let max := Gen.jsontext.c_maxNestingDepth
+      let (pushed, m) := pushN max k n 0 Machine.init
+      let next := if pushed < n then 9 else
+        match pushKind max (kindAt k n) m with
+        | .ok _ => 0
+        | .error e => errClass e
+      s!"pushed={pushed} depth={m.depth} next={next}"
+    | none => badArgs
+  | "nest", [max, start, hex] =>
+    match max.toNat?, start.toNat?, (bytesOfHex hex).bind symsOf with
+    | some max, some start, some syms =>
+      match value max (2 * syms.length + 1) start syms with
+      | .ok [] => "ok"
+      | .ok _ => "rest"
+      | .error .maxDepth => match failAt max start syms with
+        | some i => s!"fail {i}"
+        | none => "fail ?"
+      | .error .syntax => "syntax"
+      | .error .fuel => "fuel"
+    | _, _, _ => badArgs
+  | "cyc", [shape, fuel] =>
+    match fuel.toNat? with
+    | some fuel =>
+      let max := Gen.jsontext.c_maxNestingDepth
+      let after := Gen.json.c_startDetectingCyclesAfter
+      match shape with
+      | "selfPtr" => showRes (Cycle.marshal Cycle.selfPtr max after fuel 1 [] 0)
+      | "selfIface" => showRes (Cycle.marshal Cycle.selfIface max after fuel 1 [] 0)
+      | "selfSlice" => showRes (Cycle.marshal Cycle.selfSlice max after fuel 1 [] 0)
+      | _ => badArgs
+    | none => badArgs
+  | _, _ => badArgs
 
 end JsonV.Oracle.Depth
